@@ -352,7 +352,7 @@ def _steadystate_power(A, **kw):
         y = y / _data.norm.max(y)
         it += 1
 
-    if it >= maxiter:
+    if it >= maxiter and _data.norm.max(L @ y) > tol:
         raise Exception('Failed to find steady state after ' +
                         str(maxiter) + ' iterations')
 
